@@ -18,9 +18,10 @@ import (
 // Bound: all trees x every break position 0..#leaves+1. Oracle: independent flattening of the tree text.
 
 type c19Case struct {
-	Tree    string `json:"tree"`                  // e.g. "J(L,J(L,N),L)"
-	BreakAt int    `json:"break_at"`              // consumer stops after this many elements; -1 = never
-	Mask    *int   `json:"defect_mask,omitempty"` // second family: configuration with this set of independent violations
+	Tree    string `json:"tree"`                    // e.g. "J(L,J(L,N),L)"
+	BreakAt int    `json:"break_at"`                // consumer stops after this many elements; -1 = never
+	Mask    *int   `json:"defect_mask,omitempty"`   // second family: configuration with this set of independent violations
+	Shared  bool   `json:"shared_leaves,omitempty"` // every leaf at an even position is the same field-less error value (it occurs at several positions)
 }
 
 type c19Leaf struct{ id int }
@@ -28,7 +29,7 @@ type c19Leaf struct{ id int }
 func (l *c19Leaf) Error() string { return fmt.Sprintf("cors: leaf %d", l.id) }
 
 // c19Build turns the tree text into an error value and the list of leaf ids it must yield.
-func c19Build(s string) (error, []int) {
+func c19Build(s string, shared bool) (error, []int) {
 	pos, next := 0, 0
 	var parse func() (error, []int)
 	parse = func() (error, []int) {
@@ -36,6 +37,11 @@ func c19Build(s string) (error, []int) {
 		case 'L':
 			pos++
 			next++
+			if shared && next%2 == 0 {
+				// a field-less error type of the library: all such values are indistinguishable (and, being zero-size,
+				// may even share one address); each occurrence is a leaf of its own and is yielded once per occurrence
+				return new(cfgerrors.IncompatibleWildcardResponseHeaderNameError), []int{0}
+			}
 			if next%3 == 0 { // every third leaf is one of the library's own error types
 				return &cfgerrors.UnacceptableMethodError{Value: fmt.Sprint(next), Reason: "invalid"}, []int{next}
 			}
@@ -73,6 +79,8 @@ func c19ID(e error) int {
 		var n int
 		fmt.Sscan(e.Value, &n)
 		return n
+	case *cfgerrors.IncompatibleWildcardResponseHeaderNameError:
+		return 0
 	}
 	return -1
 }
@@ -81,7 +89,7 @@ func c19Judge(k c19Case) *vlib.Failure {
 	if k.Mask != nil {
 		return c19JudgeConfig(*k.Mask)
 	}
-	err, want := c19Build(k.Tree)
+	err, want := c19Build(k.Tree, k.Shared)
 	if err == nil {
 		return nil // not an error value: outside the property's domain
 	}
@@ -120,19 +128,15 @@ func c19Judge(k c19Case) *vlib.Failure {
 	if len(got) != wantN {
 		return vlib.Failf("yielded %d elements %v, want %d of the leaves %v", len(got), got, wantN, want)
 	}
-	seen := map[int]bool{}
-	wantSet := map[int]bool{}
+	left := map[int]int{} // multiset of leaves not yet yielded
 	for _, w := range want {
-		wantSet[w] = true
+		left[w]++
 	}
 	for _, g := range got {
-		if !wantSet[g] {
-			return vlib.Failf("yielded something that is not a leaf (id %d); yielded %v, leaves %v", g, got, want)
+		if left[g] == 0 {
+			return vlib.Failf("yielded leaf id %d more often than it occurs in the tree (or it is not a leaf); yielded %v, leaves %v", g, got, want)
 		}
-		if seen[g] {
-			return vlib.Failf("leaf %d yielded twice: %v", g, got)
-		}
-		seen[g] = true
+		left[g]--
 	}
 	// (3) an iter.Seq is a value that may be ranged over again: a pass that was cut short must not affect
 	// a later full pass over the same value
@@ -264,7 +268,7 @@ func checkC19(c *vlib.Ctx) (string, string) {
 		trees := c19Trees(n, memo, forests)
 		c.ParRange(int64(len(trees)), 256, "C19 trees", func(i int64) {
 			t := trees[i]
-			err, leaves := c19Build(t)
+			err, leaves := c19Build(t, false)
 			if err == nil {
 				return
 			}
@@ -276,12 +280,16 @@ func checkC19(c *vlib.Ctx) (string, string) {
 			for b := -1; b <= len(leaves)+1; b++ {
 				c.Transitions.Add(1)
 				ck.Try(c19Case{Tree: t, BreakAt: b})
+				if len(leaves) >= 2 {
+					c.Transitions.Add(1)
+					ck.Try(c19Case{Tree: t, BreakAt: b, Shared: true})
+				}
 			}
 		})
 		shapes += len(trees)
 	}
 	c.Set("tree_texts_enumerated", shapes)
-	for mask := 0; mask < 1<<9 && !c.Stopped(); mask++ {
+	for mask := 0; mask < 1<<12 && !c.Stopped(); mask++ {
 		c.States.Add(1)
 		c.Transitions.Add(2)
 		if mask&(mask-1) != 0 {
@@ -294,7 +302,8 @@ func checkC19(c *vlib.Ctx) (string, string) {
 }
 
 // c19JudgeConfig: for errors returned by NewMiddleware / Reconfigure the number of yielded errors equals the
-// number of individual violations. Every subset of nine independent single-violation settings is applied.
+// number of individual violations. Every subset of twelve violation settings is applied (nine independent single
+// violations, three that repeat a violation).
 func c19JudgeConfig(mask int) *vlib.Failure {
 	cfg := cors.Config{Origins: []string{"https://example.com"}}
 	want := 0
@@ -313,6 +322,19 @@ func c19JudgeConfig(mask int) *vlib.Failure {
 	set(6, func() { cfg.MaxAgeInSeconds = 86401 })
 	set(7, func() { cfg.PreflightSuccessStatus = 300 })
 	set(8, func() { cfg.PrivateNetworkAccess, cfg.PrivateNetworkAccessInNoCORSModeOnly = true, true })
+	// the same violation several times: each occurrence is a violation of its own
+	set(9, func() { cfg.Credentialed = true; cfg.ResponseHeaders = append(cfg.ResponseHeaders, "*") })
+	if mask&(1<<10) != 0 { // a second (and third) wildcard: violations only together with Credentialed
+		cfg.ResponseHeaders = append(cfg.ResponseHeaders, "X-Foo", "*", "*")
+		if cfg.Credentialed {
+			want += 2
+		}
+	}
+	if mask&(1<<11) != 0 {
+		cfg.Methods = append(cfg.Methods, "CONNECT", "CONNECT")
+		cfg.Origins = append(cfg.Origins, "null", "null")
+		want += 4
+	}
 	for pass := 0; pass < 5; pass++ {
 		var err error
 		switch pass {
